@@ -48,6 +48,10 @@ def _ieval(n, env, fn=None, depth=0):
     c = n.cv() if k != "DeclRefExpr" else n.cv()
     if c is not None:
         return Iv(c, c)
+    if n.d.get("inlined") and n.d.get("rets"):
+        # the value of a folded helper: the hull of what it can return
+        ivs = [ieval(n.fn.node(r_), env, fn, depth + 1) for r_ in n.d["rets"]]
+        return _clamp(Iv(min(i.lo for i in ivs), max(i.hi for i in ivs)), n)
     if k in ("ImplicitCastExpr", "CStyleCastExpr", "CXXStaticCastExpr", "CXXFunctionalCastExpr"):
         ch = n.children
         if not ch:
@@ -59,6 +63,10 @@ def _ieval(n, env, fn=None, depth=0):
     if k == "DeclRefExpr":
         if n.d["d"] in env:
             return env[n.d["d"]]
+        bm = n.fn.bind_map() if hasattr(n, "fn") and n.fn is not None else {}
+        if n.d["d"] in bm:
+            # a parameter of a folded helper: the range of its argument
+            return _clamp(ieval(n.fn.node(bm[n.d["d"]]), env, fn, depth + 1), n)
         lz = env.get("__inits__")
         if lz and n.d["d"] in lz:
             return _clamp(ieval(lz[n.d["d"]], env, fn, depth + 1), n)
@@ -177,9 +185,17 @@ def refine_env(env, cond, truth, keyof):
 
 def param_keyof(fn):
     pids = {p["d"] for p in fn.params()}
+    bm = fn.bind_map()
 
     def keyof(n):
         n = n.strip()
+        hops = 0
+        # a parameter of a folded helper that was handed one of fn's own parameters stands for it
+        while n.kind == "DeclRefExpr" and n.d["d"] in bm and hops < 8:
+            m = fn.node(bm[n.d["d"]]).strip()
+            if m.kind != "DeclRefExpr":
+                break
+            n, hops = m, hops + 1
         if n.kind == "DeclRefExpr" and n.d["d"] in pids:
             return n.d["d"]
         return None
@@ -261,7 +277,20 @@ def check_no_wrap_adds(ctx, rule, fn, domains, label=None, touching=None, signed
     env0["__inits__"] = lz
     pk = param_keyof(fn)
 
+    bm = fn.bind_map()
+
+    def through_binds(n):
+        n = n.strip()
+        hops = 0
+        while n.kind == "DeclRefExpr" and n.d["d"] in bm and hops < 8:
+            m = fn.node(bm[n.d["d"]]).strip()
+            if m.kind != "DeclRefExpr":
+                break
+            n, hops = m, hops + 1
+        return n
+
     def keyof(n):
+        n = through_binds(n)
         k = pk(n)
         if k is not None:
             return k
@@ -275,6 +304,10 @@ def check_no_wrap_adds(ctx, rule, fn, domains, label=None, touching=None, signed
         grew = False
         for did, init in lz.items():
             if did not in dep and any(x.kind == "DeclRefExpr" and x.d.get("d") in dep for x in init.walk()):
+                dep.add(did)
+                grew = True
+        for did, init_id in bm.items():
+            if did not in dep and any(x.kind == "DeclRefExpr" and x.d.get("d") in dep for x in fn.node(init_id).walk()):
                 dep.add(did)
                 grew = True
     adds = [n for n in fn.events() if n.kind == "BinaryOperator" and n.op == "+" and (n.get("sgn") is False or signed) and n.get("bits")
